@@ -1,7 +1,7 @@
 #!/venv/bin/python
 """Copy confirmed sub-agent candidates into /verif/seeded/<Cxx>-<k>/ and write meta.json.
 
-usage: seeded_import.py <scratch root> <verify.log> <batchtest.json>
+usage: seeded_import.py <scratch root> <verify.log> <batchtest.json> [subdir=out] [id infix]
 
 A candidate <root>/<Cxx>/out/<k>/ is kept only when
   * verify.log has "demo clean=0 mutated=1" for it (tools/seeded_verify.sh: the demonstration exits 0 on a scratch
@@ -44,6 +44,8 @@ def pick(secs, pattern, limit=1500):
 
 def main():
     root, vlog, bjson = sys.argv[1:4]
+    sub = sys.argv[4] if len(sys.argv) > 4 else "out"
+    infix = sys.argv[5] if len(sys.argv) > 5 else ""
     ver = {}
     for line in open(vlog):
         d, _, rest = line.partition(" ")
@@ -53,7 +55,7 @@ def main():
     for prop in sorted(os.listdir(root)):
         if not re.fullmatch(r"C\d\d", prop):
             continue
-        outd = os.path.join(root, prop, "out")
+        outd = os.path.join(root, prop, sub)
         for k in sorted(os.listdir(outd)) if os.path.isdir(outd) else []:
             d = os.path.join(outd, k)
             if not (os.path.isdir(d) and os.path.exists(os.path.join(d, "patch.diff"))):
@@ -66,7 +68,7 @@ def main():
             notes = open(os.path.join(d, "notes.md")).read()
             secs = sections(notes)
             title = notes.splitlines()[0].lstrip("# ").strip()
-            dst = os.path.join(OUT, f"{prop}-{k}")
+            dst = os.path.join(OUT, f"{prop}-{infix}{k}")
             os.makedirs(dst, exist_ok=True)
             for f in ("patch.diff", "demo.py", "notes.md"):
                 shutil.copy(os.path.join(d, f), os.path.join(dst, f))
